@@ -172,11 +172,11 @@ Qed.
 (* ---- refinement of copy_loop to P1 --------------------------------------------------------------- *)
 Lemma copy_loop_refine : forall s k fuel i top m rest acc',
   (k = 0 \/ k = 1) -> k <= i -> i <= zlen s ->
-  skipn (Z.to_nat i) s = rest -> (length rest < m)%nat ->
+  skipn (Z.to_nat i) s = rest -> (length rest + 1 < m)%nat ->
   P1 fuel rest (top ++ root_acc k) = Some acc' ->
   exists m', copy_loop fuel s (zlen s) k i (Z.of_nat (length (top ++ root_acc k))) (B (top ++ root_acc k) m)
              = Some (Z.of_nat (length acc'), B acc' m') /\
-             (length acc' + m' = length (top ++ root_acc k) + m)%nat /\ (0 < m')%nat /\
+             (length acc' + m' = length (top ++ root_acc k) + m)%nat /\ (1 < m')%nat /\
              exists top', acc' = top' ++ root_acc k.
 Proof.
   intros s k. induction fuel as [|f IH]; intros i top m rest acc' Hk Hki Hi Hs Hm HP; [discriminate|].
@@ -296,4 +296,99 @@ Proof.
     + change (c :: q ++ acc0) with ((c :: q) ++ acc0).
       rewrite (IH rest' (c :: q) acc0); [|lia|exact Hn|constructor; [apply Z.eqb_neq; exact Ec|exact Hs]|discriminate].
       cbn [rev]. rewrite <- app_assoc. reflexivity.
+Qed.
+
+(* ---- passes 2, 3 and the tail on a buffer without the pattern  '.' '.' (sep | NUL) -------- *)
+Definition nodd (buf : list Z) : Prop :=
+  forall i, 1 <= i -> get buf (i - 1) = DOT -> get buf i = DOT ->
+            get buf (i + 1) <> 0 /\ get buf (i + 1) <> SEP.
+
+Lemma dotdot_at_false : forall buf i r last, nodd buf -> dotdot_at buf i r last = false.
+Proof.
+  intros buf i r last N. unfold dotdot_at.
+  destruct (i >? 2) eqn:Ei; [|rewrite andb_false_r; reflexivity].
+  destruct (get buf (i - 1) =? DOT) eqn:E1; [|rewrite !andb_false_r; reflexivity].
+  destruct (get buf i =? DOT) eqn:E2; [|rewrite !andb_false_r; reflexivity].
+  destruct (N i ltac:(lia) ltac:(lia) ltac:(lia)) as [A B0].
+  unfold is_sep. replace (get buf (i + 1) =? 0) with false by lia.
+  replace (get buf (i + 1) =? SEP) with false by lia. rewrite !andb_false_r. reflexivity.
+Qed.
+
+Lemma dotdot_loop_id : forall buf r, nodd buf -> forall fuel i last next,
+  (Z.to_nat (r - i) < fuel)%nat -> dotdot_loop fuel i r last next buf = Some (r, buf).
+Proof.
+  intros buf r N. induction fuel as [|f IH]; intros i last next Hf; [lia|].
+  cbn [dotdot_loop]. destruct (i <? r) eqn:E; [|reflexivity].
+  rewrite dotdot_at_false by exact N. apply IH. lia.
+Qed.
+
+Lemma root_scan_id : forall buf r fuel, nodd buf -> root_dotdot_scan (S fuel) buf r 1 = Some 1.
+Proof.
+  intros buf r fuel N. cbn [root_dotdot_scan].
+  change (1 + 1) with 2. change (1 + 2) with 3.
+  destruct (get buf 1 =? DOT) eqn:E1; [|rewrite !andb_false_r; reflexivity].
+  destruct (get buf 2 =? DOT) eqn:E2; [|rewrite !andb_false_r; reflexivity].
+  pose proof (N 2 ltac:(lia)) as N2. change (2 - 1) with 1 in N2. change (2 + 1) with 3 in N2.
+  destruct (N2 ltac:(lia) ltac:(lia)) as [A B0].
+  replace (get buf 3 =? SEP) with false by lia.
+  replace (get buf 3 =? 0) with false by lia.
+  rewrite !andb_false_r. reflexivity.
+Qed.
+
+(* the final text, from the reversed output of the first pass *)
+Definition fin (acc : list Z) : list Z :=
+  let acc2 := match acc with
+              | d :: ((e :: _) as t) => if (e =? SEP) && (d =? DOT) then t else acc
+              | _ => acc
+              end in
+  match acc2 with [] => [DOT] | _ => rev acc2 end.
+
+Lemma cstr_B : forall acc m, Forall (fun c => c <> 0) acc -> cstr (B acc (S m)) = rev acc.
+Proof.
+  intros acc m H. unfold B. apply Forall_rev in H. induction (rev acc) as [|c l IH].
+  - reflexivity.
+  - inversion H; subst. cbn [app cstr]. apply Z.eqb_neq in H2. rewrite H2. f_equal. apply IH. assumption.
+Qed.
+
+Lemma get_B_0 : forall acc m, Forall (fun c => c <> 0) acc -> acc <> [] -> get (B acc m) 0 <> 0.
+Proof.
+  intros acc m H N. unfold get, B. cbn. apply Forall_rev in H.
+  destruct (rev acc) as [|c l] eqn:E.
+  - apply (f_equal (@rev Z)) in E. rewrite rev_involutive in E. cbn in E. congruence.
+  - cbn. inversion H; assumption.
+Qed.
+
+Lemma tail_rules_fin : forall acc m, nodd (B acc (S (S m))) -> Forall (fun c => c <> 0) acc ->
+  cstr (tail_rules (Z.of_nat (length acc)) (B acc (S (S m)))) = fin acc.
+Proof.
+  intros acc m N Z0. unfold tail_rules. set (r := Z.of_nat (length acc)).
+  assert (Fin : forall acc2 m2, Forall (fun c => c <> 0) acc2 ->
+            cstr (if get (B acc2 (S (S m2))) 0 =? 0 then set (set (B acc2 (S (S m2))) 0 DOT) 1 0 else B acc2 (S (S m2)))
+            = match acc2 with [] => [DOT] | _ => rev acc2 end).
+  { intros acc2 m2 H2. destruct acc2 as [|x acc2'].
+    - reflexivity.
+    - pose proof (get_B_0 (x :: acc2') (S (S m2)) H2 ltac:(discriminate)) as G.
+      replace (get (B (x :: acc2') (S (S m2))) 0 =? 0) with false by lia. apply cstr_B. exact H2. }
+  destruct acc as [|d [|e t]].
+  - (* r = 0 *) cbn [length] in r. subst r. cbn [Z.of_nat Z.geb Z.compare andb]. apply (Fin [] m). constructor.
+  - (* r = 1 *) cbn [length] in r. subst r. cbn [Z.of_nat Pos.of_succ_nat Z.geb Z.compare andb].
+    apply (Fin [d] m). exact Z0.
+  - (* r >= 2 *)
+    assert (Hr : r = Z.of_nat (length (d :: e :: t))) by reflexivity.
+    replace (r >=? 2) with true by (cbn [length] in Hr; lia). cbn [andb].
+    rewrite (get_top d (e :: t) _ r Hr), (get_second d e t _ r Hr). unfold is_sep. unfold fin. cbv beta iota zeta.
+    destruct ((e =? SEP) && (d =? DOT)) eqn:E1.
+    + rewrite (set_pop d (e :: t) _ r Hr).
+      rewrite (get_B_ge (e :: t) _ (r - 1)) by (cbn [length] in *; lia).
+      replace (0 =? SEP) with false by reflexivity. rewrite !andb_false_r.
+      inversion Z0; subst. apply (Fin (e :: t) (S m)). assumption.
+    + assert (R2 : (r >=? 3) && (get (B (d :: e :: t) (S (S m))) (r - 3) =? DOT) &&
+                   (get (B (d :: e :: t) (S (S m))) (r - 2) =? DOT) &&
+                   (get (B (d :: e :: t) (S (S m))) (r - 1) =? SEP) = false).
+      { destruct (r >=? 3) eqn:E3; [|reflexivity]. cbn [andb].
+        destruct (get (B (d :: e :: t) (S (S m))) (r - 3) =? DOT) eqn:G3; [|reflexivity].
+        destruct (get (B (d :: e :: t) (S (S m))) (r - 2) =? DOT) eqn:G2; [|reflexivity]. cbn [andb].
+        destruct (N (r - 2) ltac:(lia) ltac:(replace (r - 2 - 1) with (r - 3) by lia; lia) ltac:(lia)) as [_ A].
+        replace (r - 2 + 1) with (r - 1) in A by lia. lia. }
+      rewrite R2. apply (Fin (d :: e :: t) m). exact Z0.
 Qed.
